@@ -1,17 +1,39 @@
-(* Property C05 — the farm manager always holds every locked LP token and every unclaimed reward. PARTIAL.
-   Proved, per handler, for every input: what each message adds to / removes from the recorded obligations and what
-   it sends: creating / topping up a position records exactly the attached LP (C08); closing (full or partial) keeps
-   the recorded total; a withdrawal (normal or emergency) deletes the position and pays out at most its recorded
-   amount (C09); farm creation records exactly the reward as budget, forwards the fee, refunds overpayment (C11);
-   expansion adds exactly the attached amount; closing refunds exactly amount - claimed to the farm's owner; a
-   tolerated failing refund leaves the tokens with the farm manager (C20); claims only raise claimed amounts, never
-   beyond the funded amount (C06).
-   NOT proved: the inductive invariant over all histories itself (balance >= positions + unclaimed budgets per
-   denom). It is checked on every run, on the IMPLEMENTATION's snapshots, by the decidable monitor
-   Monitors.mon_C05 after every operation of every generated history, and through the correspondence.
-   Statements only. *)
+(* Property C05 — the farm manager always holds every locked LP token and every unclaimed reward.
+   FULL PROOF of the custody invariant over all histories (Proofs/FarmCustody.v: per-message accounting
+   obligations' + sent <= obligations + attached funds; Proofs/FarmCustodyChain.v: induction over the chain
+   interpreter — arbitrary call trees, the pool manager locking LP on behalf of depositors, replies, rejected
+   operations, injected faults at every bank call, tolerated refund failures):
+     for every denom, bank balance of the farm manager >= sum of all positions' recorded LP amounts in that denom
+                                                          + sum over live farms paying that denom of (funded - claimed),
+   in every world reachable from genesis by any operations whose transactions are not signed by the farm manager's
+   own address (a contract cannot sign). Farms whose reward token is itself an LP token are covered (the sum is per
+   denom over both tables). The per-handler effects are restated below. The consequence "every position can be
+   withdrawn / every remainder refunded, in any order" is the bank-module reading of the inequality (a send of
+   at most the recorded amount cannot fail for lack of funds); the same inequality is also evaluated on the
+   implementation's snapshots by Monitors.mon_C05 on every run. Statements only. *)
 From MD.Model Require Import Base Ownable Epoch PoolMath Types PoolManager FarmManager Chain.
-From MD.Proofs Require Import ChainProofs AtomicProofs WeightProofs FarmProofs RewardProofs.
+From MD.Proofs Require Import BankProofs ChainProofs AtomicProofs WeightProofs FarmProofs RewardProofs FarmCustody FarmCustodyChain.
+
+(* the invariant, for every reachable world *)
+Theorem C05_custody_in_every_reachable_world : forall g w0 ops d,
+  genesis_world g = Ok w0 -> 0 <= amount_of (fm_create_fee (g_fm g)) -> Forall op_ok ops ->
+  ssum (pos_owed d) (fm_positions (w_fm (run w0 ops))) + ssum (farm_owed d) (fm_farms (w_fm (run w0 ops)))
+    <= bal (w_bank (run w0 ops)) FM d.
+Proof.
+  intros g w0 ops d Hg Hfee Hok. pose proof (run_custody ops w0 Hok (genesis_custody g w0 Hg Hfee)) as [_ Hs].
+  specialize (Hs d). unfold slack, obl in Hs. lia.
+Qed.
+
+(* preserved by every single operation from any world satisfying it (not only from genesis) *)
+Theorem C05_custody_preserved_by_every_operation : forall w o, op_ok o -> custody w -> custody (fst (step w o)).
+Proof. exact step_custody. Qed.
+
+(* the accounting behind it: every farm-manager message, from any sender, with any funds *)
+Theorem C05_every_message_is_accounted : forall w sender funds m s' msgs,
+  fm_inv (w_fm w) -> coins_ok funds = true -> wmsg_ok (WFm m) = true ->
+  fm_execute w sender funds m = Ok (s', msgs) ->
+  (Forall is_send msgs /\ forall d, obl s' d + out_amt msgs d <= obl (w_fm w) d + camt funds d) /\ fm_inv s'.
+Proof. exact fm_execute_accounted. Qed.
 
 Theorem C05_position_created_with_attached_lp : forall w sender funds oid dur receiver s' msgs,
   create_position w sender funds oid dur receiver = Ok (s', msgs) ->
@@ -74,6 +96,9 @@ Theorem C05_claims_never_exceed_the_funded_amount : forall modified fs fs',
     exists f, sfind f_id id fs = Some f /\ farm_same_but_claimed f f' \/ (sfind f_id id fs = Some f' /\ f = f').
 Proof. exact claim_farm_update_bounded. Qed.
 
+Print Assumptions C05_custody_in_every_reachable_world.
+Print Assumptions C05_custody_preserved_by_every_operation.
+Print Assumptions C05_every_message_is_accounted.
 Print Assumptions C05_position_created_with_attached_lp.
 Print Assumptions C05_withdrawal_pays_at_most_the_recorded_amount.
 Print Assumptions C05_close_farm_refunds_exactly_the_remainder.
